@@ -3,6 +3,7 @@
 From Coq Require Import List NArith Bool.
 From MV Require Import Base.PyStr Doc.Str.
 Import ListNotations.
+Open Scope list_scope.
 Open Scope N_scope.
 
 Definition nattrs := list (str * list str).
